@@ -453,7 +453,7 @@ impl<'a> G<'a> {
 
     fn comment_text(&mut self) -> Vec<u8> {
         const C: &[&str] = &[
-            " c ", "note", " a > b ", " <x> ", " line1\n line2 ", "", " \u{e9} ", " & ", " a - b ", " > ", "x>y", " ->", " <a>\n <b/>\n </a>\n", ">\n\n", " <!- \n> ",
+            " c ", "note", " a > b ", " <x> ", " line1\n line2 ", "", " \u{e9} ", " & ", " a - b ", " > ", "x>y", " ->", " <a>\n <b/>\n </a>\n", " >\n\n", " <!- \n> ",
         ];
         C[self.rng.below(C.len() as u64) as usize].as_bytes().to_vec()
     }
@@ -1067,7 +1067,19 @@ impl<'a> G<'a> {
                                 c3.extend_from_slice(&cur);
                                 let cands = [c1, c2, c3, b"!".to_vec()];
                                 let st = self.rng.below(4) as usize;
-                                (0..4).map(|k| &cands[(st + k) % 4]).find(|c| !check_fn(c)).map(|c| GText::plain(c))
+                                // (the loader trims the text first: the corrupted value must still be wrong, and non-empty, after trimming)
+                                let trim = |c: &Vec<u8>| -> Vec<u8> {
+                                    let mut a = 0;
+                                    let mut b = c.len();
+                                    while a < b && c[a].is_ascii_whitespace() {
+                                        a += 1;
+                                    }
+                                    while b > a && c[b - 1].is_ascii_whitespace() {
+                                        b -= 1;
+                                    }
+                                    c[a..b].to_vec()
+                                };
+                                (0..4).map(|k| &cands[(st + k) % 4]).find(|c| !trim(c).is_empty() && !check_fn(&trim(c))).map(|c| GText::plain(c))
                             }
                             ("not-a-number", CharacterDataSpec::UnsignedInteger) => {
                                 const B: &[&str] = &["12x", "-1", "1.5", "0x10", "18446744073709551616", "1 2", "+", "1e3", "٣"];
